@@ -300,9 +300,8 @@ func (in *Inst) load(addr *Term, typ types.Type, g *Term, instr ssa.Instruction,
 	if tc == TRef || isAggregate(typ) {
 		// reference or aggregate stored at a location: flatten into the access path
 		if isIfaceOrFunc(typ) {
-			// function / interface values are loaded as opaque pure reads of the location
-			args := append([]*Term{root}, path...)
-			return S.mkOp("ld", tc, args...)
+			// function / interface values are scalars of the location (events when the root is mutable)
+			return in.loadScalar(root, path, tc, g, instr)
 		}
 		args := append([]*Term{root}, path...)
 		return S.mkOp("at", tc, args...)
